@@ -579,6 +579,7 @@ static cfg_print_filter_func_t pffs[NPFF] = { pff0, pff1, pff2, pff3 };
 #define DM_RESET 2
 #define DM_ANNOT 4
 #define DM_NOSECMOD 8	/* no MODIFIED mark on section options */
+#define DM_FLOATF 16	/* floats to the precision the library prints them with (%f) */
 
 static void dump_sec(cfg_t *sec, int mode);
 
@@ -595,7 +596,7 @@ static void dump_opt(cfg_opt_t *o, int mode)
 		if (i) fputc(',', out);
 		switch (o->type) {
 		case CFGT_INT: fprintf(out, "%ld", cfg_opt_getnint(o, i)); break;
-		case CFGT_FLOAT: fprintf(out, "%.17g", cfg_opt_getnfloat(o, i)); break;
+		case CFGT_FLOAT: fprintf(out, (mode & DM_FLOATF) ? "%f" : "%.17g", cfg_opt_getnfloat(o, i)); break;
 		case CFGT_BOOL: fprintf(out, "%d", (int)cfg_opt_getnbool(o, i)); break;
 		case CFGT_STR: enc(out, cfg_opt_getnstr(o, i)); break;
 		case CFGT_PTR: { struct pv *p = cfg_opt_getnptr(o, i); enc(out, p ? p->text : NULL); break; }
